@@ -195,6 +195,7 @@ theorem inv_step {s : State} (hi : Inv s) (op : Op) (hw : op.wf) : Inv (step s o
     | none => exact hi
     | some s' => exact inv_addLabel hi hc
   | removeLabel h l => exact inv_removeLabel hi h l
+  | noop t => exact hi
 
 theorem refine_step {s : State} (hi : Inv s) (op : Op) (hw : op.wf) :
     (obs (step s op).1, (step s op).2) = sStep (obs s) op := by
@@ -206,6 +207,10 @@ theorem refine_step {s : State} (hi : Inv s) (op : Op) (hw : op.wf) :
   | delete h => exact refine_delete hi h
   | addLabel h l => exact refine_addLabel hi h l
   | removeLabel h l => exact refine_removeLabel hi h l
+  | noop t =>
+    have hap : sApply (obs s) (.noop t) = obs s := rfl
+    simp only [step]
+    rw [sStep_valid (by rw [hap]; exact sValid_obs hi), hap]
 
 /-! ### the initial population -/
 
